@@ -22,6 +22,7 @@ RULE = (
     "Non-trivial: >=2 types and (block orders differ or an operand went through a pytree round trip); distinct by "
     "(type set, orders, histories, layout)."
 )
+RULE += " Also: ONE jitted callable reused for both storage orders; operand representations float32 / NumPy blocks / int32 / float64 under x64; scalar representations."
 ASSUMPTIONS = ["float32 arithmetic on integers below 2^24 is exact", "NumPy per-type evaluation as the oracle"]
 ANCHORS = [
     "ginjax.geometric.multi_image:MultiImage.__add__",
